@@ -18,7 +18,8 @@ import time
 import traceback
 from collections.abc import Callable, Sequence, Set as AbstractSet
 from contextlib import redirect_stderr, redirect_stdout
-from typing import Any, Final, TypeAlias as _TypeAlias
+from types import UnionType
+from typing import Any, Final, TypeAlias as _TypeAlias, Union, get_args, get_origin, get_type_hints
 
 from librt.base64 import b64encode
 
@@ -299,9 +300,12 @@ class Server:
                 data.pop("is_tty", None)
                 data.pop("terminal_width", None)
             try:
-                inspect.signature(method).bind(self, **data)
+                bound = inspect.signature(method).bind(self, **data)
             except TypeError as err:
                 return {"error": f"Invalid arguments for command '{command}': {err}"}
+            type_error = argument_type_error(method, bound.arguments)
+            if type_error is not None:
+                return {"error": f"Invalid arguments for command '{command}': {type_error}"}
             ret = method(self, **data)
             assert isinstance(ret, dict)
             return ret
@@ -987,7 +991,7 @@ class Server:
             elif show == "definition":
                 result = engine.get_definition(location)
             else:
-                assert False, "Unknown inspection kind"
+                return {"error": f"Unknown inspection kind '{show}'"}
         finally:
             self.options.inspections = old_inspections
         if "out" in result:
@@ -1026,6 +1030,53 @@ class Server:
 
 
 # Misc utilities.
+
+
+def value_matches_hint(value: object, hint: object) -> bool:
+    """Does a value decoded from JSON fit a (simple) parameter annotation of a command?"""
+    if hint is Any or hint is object:
+        return True
+    if hint is None or hint is type(None):
+        return value is None
+    origin = get_origin(hint)
+    if origin is Union or origin is UnionType:
+        return any(value_matches_hint(value, arg) for arg in get_args(hint))
+    if hint is bool:
+        return isinstance(value, bool)
+    if hint is int:
+        return isinstance(value, int) and not isinstance(value, bool)
+    if hint is float:
+        return isinstance(value, (int, float)) and not isinstance(value, bool)
+    if hint is str:
+        return isinstance(value, str)
+    if origin in (list, Sequence):
+        args = get_args(hint)
+        return isinstance(value, list) and all(value_matches_hint(v, args[0]) for v in value if args)
+    if origin is dict:
+        return isinstance(value, dict)
+    return True
+
+
+def argument_type_error(method: Callable[..., object], arguments: dict[str, Any]) -> str | None:
+    """Check the arguments of a request against the annotations of the command method.
+
+    Requests are JSON sent by an arbitrary client: an ill-typed argument is the client's
+    error and must be answered with an error, not crash the command half-way.
+    """
+    try:
+        hints = get_type_hints(method)
+    except Exception:
+        return None
+    for name, value in arguments.items():
+        hint = hints.get(name)
+        if name == "self" or hint is None:
+            continue
+        kind = inspect.signature(method).parameters[name].kind
+        if kind is inspect.Parameter.VAR_KEYWORD:
+            continue
+        if not value_matches_hint(value, hint):
+            return f"argument '{name}' has type {type(value).__name__}"
+    return None
 
 
 MiB: Final = 2**20
